@@ -3,7 +3,7 @@ import HeartwoodModel.Driver.Util
 /-! Driver entry for C23. Case: `<script> <query> <arg>…`.
 
 `script` = comma list of `n<k>:<v>` (node), `d<a>:<b>` (dependency a→b), `x<k>` (remove), `-` = empty.
-Queries: `dump` · `sorted <ranks>` · `fold <roots> <brk>` · `prune <roots> <brk> <mode>` ·
+Queries: `dump` · `orders <k>` · `sorted <ranks>` · `fold <roots> <brk>` · `prune <roots> <brk> <mode>` ·
 `remove <k>` · `merge <script2>`; `ranks` = comma list `k:r` (default rank 0), `-` = none.
 Dump: `k:v:deps:dependents;…|tips|roots` (lists joined by `+`, `_` = empty). -/
 namespace HeartwoodModel.Driver.C23
@@ -54,6 +54,8 @@ def leMode (mode : Nat) (x y : Nat × Nat) : Bool :=
 
 def query (g : G) : List String → String
   | ["dump"] => "ok " ++ dump g
+  -- the harness rebuilds the graph with the `dependency` calls in up to `k` orders; the result is one graph
+  | ["orders", k] => if (nat? k).isSome then "ok " ++ dump g else "bad-op"
   | ["sorted", rk] =>
     match ranks? rk with
     | some t =>
